@@ -116,6 +116,9 @@ def run_c12(prop, tier):
 
 
 TOOL_ARGS = {"ovniemu": ["-l"], "ovnidump": [], "ovnitop": [], "ovnisort": []}
+# the emulator again with its debug output switched on (the messages format event arguments), for the operators that
+# change what an event carries
+DEBUG_OPS = {"nopayload", "size", "tojumbo", "phantom-payload", "flags", "jdata", "jnoterm"}
 
 
 def run_c19(prop, tier):
@@ -198,16 +201,19 @@ def run_c19(prop, tier):
             if time.time() > t_end:
                 return None         # deadline: reported as a cap, never as a pass
             res = []
-            for t in tnames:
+            runs = [(t, TOOL_ARGS[t]) for t in tnames]
+            if label.split(":")[0] in DEBUG_OPS:
+                runs.append(("ovniemu", ["-l", "-d"]))
+            for (t, targs) in runs:
                 td = os.path.join(base, "w%d" % os.getpid())
                 write_files(td, files)      # ovnisort rewrites streams: fresh copy per tool
-                rc, out, err = emusrv.run_tool(tools[t], TOOL_ARGS[t] + [td], timeout=8,
+                rc, out, err = emusrv.run_tool(tools[t], targs + [td], timeout=8,
                                                env_extra={"ASAN_OPTIONS": "detect_leaks=0:abort_on_error=1:allocator_may_return_null=1"})
                 if rc == "timeout" and hangs.get(t, 0) < 2:
                     # a deterministic case that timed out is re-run alone with a much longer limit before it is called a hang
                     # (once this worker has confirmed two hangs of the tool that way, further 8 s timeouts are reported as they are)
                     write_files(td, files)
-                    rc, out, err = emusrv.run_tool(tools[t], TOOL_ARGS[t] + [td], timeout=(40 if tier == "quick" else 90),
+                    rc, out, err = emusrv.run_tool(tools[t], targs + [td], timeout=(40 if tier == "quick" else 90),
                                                    env_extra={"ASAN_OPTIONS": "detect_leaks=0:abort_on_error=1:allocator_may_return_null=1"})
                 if rc == "timeout":
                     hangs[t] = hangs.get(t, 0) + 1
@@ -216,7 +222,7 @@ def run_c19(prop, tier):
                     for l in err.split("\n"):
                         if "ERROR: AddressSanitizer" in l or "runtime error" in l or l.strip().startswith("#0") or l.strip().startswith("#1 "):
                             san += l.strip()[:160] + " | "
-                res.append((t, rc, san[:500], err[-200:] if rc not in (0, 1) else ""))
+                res.append((t if targs == TOOL_ARGS[t] else t + " " + " ".join(targs), rc, san[:500], err[-200:] if rc not in (0, 1) else ""))
             return res
         kinds = {}
         outcomes = set()
@@ -250,7 +256,7 @@ def run_c19(prop, tier):
         ctx.cov["rule"] = ("every single corruption of C12's operator set plus: all 256 (quick: 12) flag bytes of every event, clock bytes, 13 abusive jumbo size fields, "
                            "jumbo data cut/unterminated, events stripped of their payload, phantom payload at the end, 8 loom_cpus shapes and 15 abusive metadata "
                            "values, non-object / deeply nested JSON, missing/empty stream.obs; plus every stream of %d atoms from %d valid and malformed event "
-                           "encodings after a valid prefix; each case through ovniemu -l, ovnidump, ovnitop and ovnisort built with ASan+UBSan and exact-size "
+                           "encodings after a valid prefix; each case through ovniemu -l (and -l -d where an event's content changes), ovnidump, ovnitop and ovnisort built with ASan+UBSan and exact-size "
                            "heap stream buffers; the claim is about this space, not about all byte strings" % (depth, len(atoms)))
         ctx.sample({"base": "nosv", "corruption": "jsize:loom.n0/proc.100/thread.101:1:4294967280", "tools": tnames})
         ctx.sample({"corruption": "grammar:" + "+".join(a[0] for a in atoms[:2])})
